@@ -64,6 +64,13 @@ CHECKS = {
          "P(Y,Z|do X)/P(Z|do X)) is decided by the bounded stand-in: exact SCM evaluation on every ADMG with 2-3 nodes x every conditional query, textbook graphs, sampled 4-6 node ADMGs.",
          TRUST + "; assumed contracts: are_d_separated (C04), identify (C02), normalize_marginalize (C13, bounded); trusted mathematics: Shpitser & Pearl 2006b Thm 6-7",
          TECH + " (totality) + bounded exact-SCM evaluation", "DESIGN.md §5 C03"),
+ "C17": ("other", "Proved for all inputs: the marginalisation steps of Tian-Pearl identification sum over exactly the published variable sets -- compute_ancestral_set_q_value "
+         "(Lemma 3: sum of Q[T] over T - A) and compute_q_value_of_variables_with_low_topological_ordering_indices (Lemma 4: sum over the variables after v_i in the order; One() for the "
+         "empty prefix; KeyError exactly for a vertex outside the order). The IDENTIFY recursion (identify_district_variables: list indexing by `.index(True)`, dynamic class dispatch) and "
+         "the c-factor products are outside the generator's subset and are decided by the labelled bounded stand-in: Q[T] and Q[C] evaluated against P(. | do(rest)) of a random positive "
+         "SCM on every ADMG with 2-3 nodes and sampled 4-6 node ADMGs, every district T and bidirected-connected C, two topological orders, Q[T] given both as the Lemma-1/4 product and, "
+         "where valid, as the single conditional P(T | V - T).",
+         TRUST + "; trusted mathematics: Tian & Pearl 2003 Lemmas 1, 3, 4 (validated numerically by the oracle)", TECH + " + bounded exact-SCM evaluation", "DESIGN.md §5 C17"),
 }
 NA = {
 }
